@@ -1345,6 +1345,8 @@ def _f32_model(ex, fn, args):
         return from_fp(z3.fpSqrt(z3.RNE(), to_fp(x)))
     if n in ('sin', 'cos'):
         return ex.path.env['libm'](n, x)
+    if n == 'sin_cos':
+        return Agg([ex.path.env['libm']('sin', x), ex.path.env['libm']('cos', x)])
     if n == 'is_nan':
         return z3.fpIsNaN(to_fp(x))
     if n == 'powi':
